@@ -398,6 +398,12 @@ type Wrote struct{ Hex string }
 
 func (w Wrote) String() string { return "WROTE " + w.Hex }
 
+// Discarded is logged for a frame that Send had accepted and the (virtual) kernel threw away when
+// the connection was closed (the socket had been set to linger 0).
+type Discarded struct{ Hex string }
+
+func (d Discarded) String() string { return "DISCARDED-AT-CLOSE " + d.Hex }
+
 func c16Senders(tcp bool, senders, each int) func() {
 	return func() {
 		var sock *knxnet.TunnelSocket
@@ -408,6 +414,7 @@ func c16Senders(tcp bool, senders, each int) func() {
 			sock, ep = dialUDP()
 		}
 		ep.OnWrite = func(w vnet.WriteRec) { mc.Log(Wrote{hex.EncodeToString(w.Data)}) }
+		ep.OnDiscard = func(w vnet.WriteRec) { mc.Log(Discarded{hex.EncodeToString(w.Data)}) }
 		done := mc.NewChan[int](senders, "c16.sdone")
 		for s := 0; s < senders; s++ {
 			s := s
@@ -725,6 +732,12 @@ func c16Oracle(prop string, census bool) func(tr *mc.Trace) []h.Violation {
 				bad("datagram-length-differs-from-header", "a buffer of %d octets was handed to the network whose header announces a total length of %d: %s", len(b), int(b[4])<<8|int(b[5]), hx)
 			}
 		}
+		for _, e := range tr.Log {
+			if d, ok := e.V.(Discarded); ok {
+				bad("send-accepted-but-discarded-at-close", "Send returned nil for frame %s, the application closed the socket, and the frame never left: the socket was set to discard unsent data on Close (linger 0)", d.Hex)
+				break
+			}
+		}
 		for hx, n := range sends {
 			if wrote[hx] != n {
 				bad("send-not-one-write", "frame %s was sent %d time(s) but written %d time(s) as one contiguous buffer (writes: %v)", hx, n, wrote[hx], wrote)
@@ -801,6 +814,7 @@ func init() {
 	// frames (the largest legal ones among them) through the real UDP and TCP receivers
 	reg("both", "C02-frames-through-the-udp-receiver-L2", "C02", 0, -1, c16History(false, 2), false)
 	reg("both", "C02-frames-through-the-tcp-receiver-L2", "C02", 0, -1, c16History(true, 2), false)
+	reg("both", "C02-frames-through-the-tcp-receiver-2cuts", "C02", 0, -1, c16TCPSeg(0, 2), false)
 	// "the outcome is a function of the input bytes alone" for bytes that reach the decoder through
 	// the stream receiver: the same frames, however the stream is cut into segments
 	reg("both", "C01-tcp-receiver-2cuts-upto2frames", "C01", 0, -1, c16TCPSeg(0, 2), false)
